@@ -12,15 +12,15 @@ import SdnsVerif.Model.Packer
   `n` = nil; equal ids = the same pointer), a question `<packed len|E>:<uncompressed len>`.
   The packed lengths are what the library produced for each piece; the model's `tryPack`
   runs over the primitive "emit that many bytes if they fit" → `handled=t len=<n>` | `handled=f`.
+* `msg write <directPack> <internal> lib=<outcome>` → the model's `writeMsg` on the skeleton of the preceding
+  `msg decide`: `direct:ok/<n> size=<n>` | `lib:<outcome>`
+* `cache view <kinds>` → what admission keeps for that additional section: `ar=<n> compress=t` | `not-admitted` | `panic`
 * `pool own <events>` → `dup=f|t`: the ownership model run over the endings `ok|err|werr|panic|fail|decl`
 * `pool inspect` → `clean` (the model's pool invariant)
 * everything else (`msg new|pack|clone|write`, `pool dirty`, `conc …`) is judged by the Go oracle only.
 -/
 namespace Driver.C15
 open SdnsVerif.Model SdnsVerif.Model.Packer SdnsVerif.Model.Util
-
-structure State where
-  dummy : Nat := 0
 
 def hex4 (n : Nat) : String :=
   String.ofList [nibble (n / 4096 % 16), nibble (n / 256 % 16), nibble (n / 16 % 16), nibble (n % 16)]
@@ -104,7 +104,16 @@ def heapOf (l : List (Slot × Obj Rest)) : Heap Rest := fun p =>
   | some e => e.2
   | none => default
 
-def decide (w : List String) : Option String :=
+/-- a parsed message skeleton (`msg decide`), kept for the ops that follow it. -/
+structure Skel where
+  m : Msg (Option Nat × Nat)
+  objs : List (Slot × Obj Rest)
+  pieces : List (Option Nat)
+
+structure State where
+  last : Option Skel := none
+
+def decide (w : List String) : Option (String × Skel) :=
   match w with
   | [r, c, q, an, ns, ex, n] => do
     let rcode ← (← kv "r" r).toInt?
@@ -124,9 +133,9 @@ def decide (w : List String) : Option String :=
     let st : PState Rest (List (Option Nat)) := { buf := List.replicate packBufferSize 0xAA }
     let res := tryPack (lineLib pieces) m heap st
     match res.handled, res.consumed with
-    | true, some s => some s!"handled=t len={s.data.length}"
-    | false, none => some "handled=f"
-    | _, _ => some "model-inconsistent"
+    | true, some s => some (s!"handled=t len={s.data.length}", { m := m, objs := anL ++ nsL ++ exL, pieces := pieces })
+    | false, none => some ("handled=f", { m := m, objs := anL ++ nsL ++ exL, pieces := pieces })
+    | _, _ => some ("model-inconsistent", { m := m, objs := anL ++ nsL ++ exL, pieces := pieces })
   | _ => none
 
 def step (st : State) (w : List String) : State × String :=
@@ -157,8 +166,43 @@ def step (st : State) (w : List String) : State × String :=
     | _, _ => (st, "bad-op")
   | "msg" :: "decide" :: rest =>
     match decide rest with
-    | some o => (st, o)
+    | some (o, sk) => ({ st with last := some sk }, o)
     | none => (st, "bad-op")
+  | ["msg", "new", _, _] => ({ st with last := none }, "unmodelled")
+  -- `msg write <directPack> <internal> lib=<library outcome>`: the model's `writeMsg` on the last skeleton
+  | ["msg", "write", dp, int, libo] =>
+    match st.last, parseBool dp, parseBool int, kv "lib" libo with
+    | some sk, some d, some i, some lo =>
+      let pst : PState Rest (List (Option Nat)) := { buf := List.replicate packBufferSize 0x55 }
+      let out := writeMsg (lineLib sk.pieces) sk.m (heapOf sk.objs) pst d i
+      match out.events with
+      | [.write b] => (st, s!"direct:ok/{b.length} size={out.size}")
+      | [.writeMsg] => (st, s!"lib:{lo}")
+      | _ => (st, "model-inconsistent")
+    | _, _, _, _ => (st, "bad-op")
+  -- `cache view <kinds of Extra>`: what admission stores for a message with that additional section
+  | ["cache", "view", kinds] =>
+    let ks := if kinds == "-" then [] else kinds.splitOn ","
+    if ks.any (fun k => !(["n", "a", "o", "w", "x", "e"].contains k)) then (st, "bad-op") else
+    let objs : List (Slot × Obj Rest) := ks.zipIdx.map fun (k, i) =>
+      let mk (isOPT : Bool) (ty : Nat) : Obj Rest :=
+        { isOPT := isOPT, hdr := { rrtype := ty, ttl := 0, rdlength := 0 }, rest := { plen := some 20, adm := true, ulen := 20 } }
+      if k == "n" then (none, mk false 0)
+      else if k == "o" || k == "e" then (some (i + 1), mk true typeOPT)
+      else if k == "w" then (some (i + 1), mk false typeOPT)
+      else if k == "x" then (some (i + 1), mk true 1)
+      else (some (i + 1), mk false 1)
+    let heap := heapOf objs
+    let m : Msg (Option Nat × Nat) :=
+      { hdr := {}, compress := false, question := [{ name := (some 10, 14), qtype := 1, qclass := 1 }],
+        answer := [], ns := [], extra := objs.map (·.1) }
+    let view := storableView heap m
+    let pieces : List (Option Nat) := List.replicate (view.extra.length + 1) (some 20)
+    let pst : PState Rest (List (Option Nat)) := { buf := List.replicate packBufferSize 0x55 }
+    match (admitWire (lineLib pieces) m heap pst 9999).1 with
+    | .ok _ => (st, s!"ar={view.extra.length} compress={boolStr view.compress}")
+    | .err _ => (st, "not-admitted")
+    | .panic => (st, "panic")
   | "msg" :: _ => (st, "unmodelled")
   -- `pool own <events>`: each earlier pack takes the state on top of the pool (or a new one) and ends
   -- through the named exit; afterwards no state may rest in the pool twice
@@ -174,7 +218,7 @@ def step (st : State) (w : List String) : State × String :=
       let s := exits.foldl (fun (s : Own) (e : Option Exit) => match e with
         | none => s
         | some x =>
-          let s1 := ownStep tryPackPuts s (.get s.pool.head?)
+          let s1 := ownStep tryPackPuts s (.get s.pool.head? 1)
           ownStep tryPackPuts s1 (.finish (s1.borrowed.headD 0) x)) {}
       let rec dupB : List Nat → Bool
         | [] => false
@@ -184,6 +228,7 @@ def step (st : State) (w : List String) : State × String :=
   | ["pool", "inspect"] => (st, "clean")
   | "pool" :: _ => (st, "unmodelled")
   | "conc" :: _ => (st, "unmodelled")
+  | "lib" :: _ => (st, "unmodelled")
   | _ => (st, "bad-op")
 
 end Driver.C15
